@@ -20,17 +20,39 @@ def build_graph(g: dict, how: str = "auto") -> NxMixedGraph:
     if how == "auto":
         import zlib
 
-        how = "incremental" if zlib.crc32(graph_key(g).encode()) % 3 == 0 and all(u != v for u, v in g["di"]) else "from_edges"
+        how = "incremental" if zlib.crc32(graph_key(g).encode()) % 3 == 0 and all(u != v for u, v in g["di"]) else "ctor-rotation"
     if how == "incremental":
         return _carry_store(g, build_graph_incremental(g))
-    return _carry_store(
-        g,
-        NxMixedGraph.from_edges(
-            nodes=[V(n) for n in g["nodes"]],
-            directed=[(V(u), V(v)) for u, v in g["di"]],
-            undirected=[(V(u), V(v)) for u, v in g["bi"]],
-        ),
-    )
+    if how == "ctor-rotation":
+        # the public constructors by turns (a graph is the same graph however it was written down)
+        import zlib
+
+        how = ["from_edges", "from_edges", "from_str_edges", "from_adj", "from_str_adj", "copy", "subgraph"][zlib.crc32(("ctor" + graph_key(g)).encode()) % 7]
+    nodes, di, bi = list(g["nodes"]), [tuple(e) for e in g["di"]], [tuple(e) for e in g["bi"]]
+
+    def adj(pairs, wrap):
+        out = {}
+        for u, v in pairs:
+            out.setdefault(wrap(u), []).append(wrap(v))
+        return out
+
+    if how == "from_str_edges":
+        obj = NxMixedGraph.from_str_edges(nodes=nodes, directed=di, undirected=bi)
+    elif how == "from_adj":
+        obj = NxMixedGraph.from_adj(nodes=[V(n) for n in nodes], directed=adj(di, V), undirected=adj(bi, V))
+    elif how == "from_str_adj":
+        obj = NxMixedGraph.from_str_adj(nodes=nodes, directed=adj(di, str), undirected=adj(bi, str))
+    else:
+        obj = NxMixedGraph.from_edges(
+            nodes=[V(n) for n in nodes],
+            directed=[(V(u), V(v)) for u, v in di],
+            undirected=[(V(u), V(v)) for u, v in bi],
+        )
+        if how == "copy":
+            obj = obj.copy()
+        elif how == "subgraph":
+            obj = obj.subgraph([V(n) for n in nodes])
+    return _carry_store(g, obj)
 
 
 # ---------------------------------------------------------------------------
